@@ -53,6 +53,11 @@ def plan(tier, seed):
     # beyond the small bound: more than 2^15 atoms; a 31-atom chiral pattern next to its mirror image
     scs += [dict(scale='large', variant=v, atol=0.05, fraction=1.0, replace_all=ra) for v in (0, 1) for ra in (0, 1)]
     scs += [dict(scale='sheet', variant=v, height=0.5, atol=0.2, fraction=1.0, replace_all=ra) for v in (0, 1) for ra in (0, 1)]
+    for ci in (0, 2, 4):
+        for pn in ['CN', 'CNO']:
+            for pr in [i for i, p_ in enumerate(pairs(pn)) if p_[0] in INSERTING][:4]:
+                for rc in (1, 2):
+                    scs.append(dict(cell=ci, pat=pn, subpose=4, place=P(0.97, 0.03, 0.97), pair=pr, replace_all=0, atol=0.05, fraction=1.0, noise=0, rcell=rc))
     scs += replace_history_scenarios()
     return dict(scenarios=scs, exhaustive=True, chunk=20,
                 menus=dict(cells=[c[0] for c in G.CELLS], patterns=PATS + ([] if q else ['CH4', 'CHFClBr']), pairs=PAIR_NAMES, replace_all=[False, True], fractions=FRACTIONS, copies=[1, 2, 3, 4],
